@@ -454,7 +454,7 @@ def first_error(genfile, fn, module, linemap, seeds=(0, 1), timeout=600):
         if te or not fl or any(f['kind'] == 'rlimit' for f in fl) or nver is None or (nver == 0 and nerr == 0):
             return None
         got.append(fl)
-    key = lambda fl: sorted((f.get('obligation'), f.get('line')) for f in fl)
+    key = lambda fl: sorted((str(f.get('obligation')), str(f.get('line'))) for f in fl)
     if all(key(g) == key(got[0]) for g in got):
         return got[0]
     return None
